@@ -340,7 +340,7 @@ def main(tier):
                 ck.violation(r["name"], {"solver": r["backend"], "solver_output": r["detail"], "kind": "c17-float"}, reproduced=True)
     for (k, can), o in zip(CANARIES, outs[len(KINDS):]):
         ref = o[0] == "ok" and any(r["status"] != "proved" for r in o[1]["results"])
-        ck.canaries.append((f"{can[0]}: {can[2]!r} -> {can[3]!r}", ref))
+        ck.canary(f"{can[0]}: {can[2]!r} -> {can[3]!r}", ref, o)
     ck.trusted = ["jax.numpy / jax.nn primitive models (exp, log, log1p, expm1, nn.sigmoid, nn.softplus, where)", "jax.tree_util.tree_map modelled by its contract (leafwise application over matching pytrees)", "z3 + exp/log axioms"]
     ck.assumptions += ["domain: x in [-1e6, 1e6], lower < upper (|bounds| <= 1e6 for the inverse direction); Affine: scale != 0",
                        "CustomTransform applies user functions verbatim (nothing to verify); identical behaviour under jit is JAX's contract",
